@@ -16,7 +16,7 @@ type mixOpts struct {
 	// message kinds (weights)
 	wSSO, wCallback, wSLO, wAttrQ, wMeta, wCert, wReady, wHealthz, wRaw int
 	// scheduler / environment steps (weights)
-	wResume, wFinish, wComplete, wUncomplete, wAdvance, wRestart, wDelReq, wRotate, wRotateMeta, wRereg, wDelSP, wPair, wUnhealthy int
+	wResume, wFinish, wComplete, wUncomplete, wAdvance, wRestart, wDelReq, wRotate, wRotateMeta, wRereg, wDelSP, wPair, wUnhealthy, wCancel int
 
 	devPct        int // a protocol message deviates from conformance in one listed way
 	tamperPct     int // a protocol message is manipulated in flight
@@ -35,6 +35,7 @@ type mixOpts struct {
 	autoFinishPct int // after a send, immediately run the task to completion (serial use)
 	callbackAfter int // percent: after an sso send+finish, complete and call back the new session
 	rogueSPPct    int
+	deadlinePct   int // a request carries a server-side deadline on the simulated clock
 	oddHostPct    int // request Host / Forwarded values that are not valid URL authorities (only where nothing but panics is judged)
 }
 
@@ -119,7 +120,7 @@ func (g G) planMix(prop string, o *mixOpts) *Plan {
 	}
 	nsp := len(p.World.SPs)
 	weights := []int{o.wSSO, o.wCallback, o.wSLO, o.wAttrQ, o.wMeta, o.wCert, o.wReady, o.wHealthz, o.wRaw,
-		o.wResume, o.wFinish, o.wComplete, o.wUncomplete, o.wAdvance, o.wRestart, o.wDelReq, o.wRotate, o.wRotateMeta, o.wRereg, o.wDelSP, o.wPair, o.wUnhealthy}
+		o.wResume, o.wFinish, o.wComplete, o.wUncomplete, o.wAdvance, o.wRestart, o.wDelReq, o.wRotate, o.wRotateMeta, o.wRereg, o.wDelSP, o.wPair, o.wUnhealthy, o.wCancel}
 	sent := 0
 	for i := 0; i < n; i++ {
 		lab := fmt.Sprintf("s%d", i)
@@ -184,13 +185,16 @@ func (g G) planMix(prop string, o *mixOpts) *Plan {
 			}
 			if (m.Kind == "sso" && m.Binding == "post") || m.Kind == "attrq" || (m.Kind == "slo" && m.Binding == "post") || (m.Kind == "callback" && m.IDPlace != "query") {
 				if g.chance(lab+".bf", o.bodyFaultPct) {
-					m.BodyFault = g.pick(lab+".bfk", "short", "err", "eof")
+					m.BodyFault = g.pick(lab+".bfk", "short", "err", "eof", "split")
 					m.BodyOff = g.intn(lab+".bfo", 3000)
 				}
 			}
 			if fp > 0 && g.chance(lab+".fa", fp) {
 				m.FaultAt = g.rng(lab+".fan", 1, 4)
 				m.FaultKind = g.pick(lab+".fak", "err", "err", "nil_record", "key_without_cert", "cert_without_key", "empty_cert", "partial_err", "err_canceled", "err_notfound", "err_deadline", "err_eof")
+			}
+			if g.chance(lab+".dl", o.deadlinePct) {
+				m.DeadlineNs = int64(g.pick2ms(lab + ".dlv"))
 			}
 			if g.chance(lab+".wf", o.writeFaultPct) {
 				m.WriterFault, m.WriterOff = true, g.intn(lab+".wfo", 2000)
@@ -246,6 +250,8 @@ func (g G) planMix(prop string, o *mixOpts) *Plan {
 			p.Steps = append(p.Steps, Step{K: "pair", Pick: g.intn(lab+".a", 8), Pick2: g.intn(lab+".b", 8)})
 		case 21:
 			p.Steps = append(p.Steps, Step{K: "mutate", Mut: "unhealthy"})
+		case 22:
+			p.Steps = append(p.Steps, Step{K: "cancel", Pick: g.intn(lab+".pick", 8)})
 		}
 	}
 	p.Recovery = g.chance("recovery", o.recoveryPct)
